@@ -141,7 +141,8 @@ def run(tier, seed, replay=None):
             scs = hid_scenarios(tier, seed) + serial_scenarios(tier, seed)
             asynctrace.model_runs(out, scx, "c17", tier)
             scs = scs + asynctrace.scenarios(seed, 32 if tier == "quick" else 400, "c17") \
-                + asynctrace.serial_scenarios(seed, 32 if tier == "quick" else 400, "c17")
+                + asynctrace.serial_scenarios(seed, 32 if tier == "quick" else 400, "c17") \
+                + asynctrace.hasseb_scenarios(seed, 16 if tier == "quick" else 200, "c17")
         recs = core.pmap(run_one, scs, chunksize=4)
         slim = []
         for ix, (sc, r) in enumerate(zip(scs, recs), 1):
